@@ -31,6 +31,9 @@ CH["C02"] = dict(level="exploration", design="3/C02", technique="deterministic s
 CH["C03"] = dict(level="exploration", design="3/C03", technique="deterministic simulation: two real endpoints on a sim transport, seeded packet/transaction sequences and schedules, sequential transaction-map model replayed over the event log",
    text="Seeded search over WritePacket sequences of every constructible packet with generated fields (AMF0 trees, colliding transaction ids, responses for outstanding/consumed/never-sent ids, typed waits) x segmentation x interleavings of 4 tasks after the real handshake. Invariants at send: MarshalBinary length == Size(), a fresh packet of the type unmarshals and re-marshals identically. At receive: DecodeMessage returns the Go type the dispatch defines (a _result: the response type of the model's outstanding request, exactly once; no request: error), re-marshalling gives the received payload; ExpectPacket/ExpectMessage return the first arriving packet/message of the type. 2% of plans sweep all 65536 user-control event types. Sampling, not proof.",
    note="Trusted: transaction-map model; AMF0 values are pre-filtered by an own encode/decode round trip and reported under the separate key C03/amf0-tree; createStream/play accepted as generic CallPacket.")
+CH["C04"] = dict(level="exploration", design="3/C04", technique="deterministic simulation: tape-driven scheduler over writer/reader/peer tasks with post-deposit yields; direct event-log oracle + porcupine linearizability cross-check; same plans on raw-futex gates under the race detector",
+   text="Seeded search over request sequences x peer answer modes (at once/delayed/at end/duplicated) x segmentation x interleavings of W (marshal, transport writes, bookkeeping), R (read, decode, lookup) and peer P, including P answering and R decoding inside W's write call. Oracle on the ordered event log: every first response decoded after its request's last byte was deposited must be matched with the request's response type; a second response for the same id must be rejected; none lost. Cross-check with porcupine against a sequential map. Race phase: identical plans with scheduler gates built from raw futex syscalls in //go:norace code, so the detector sees only the library's own synchronisation; a report naming two go-oryx-lib accesses is a violation.",
+   note="Trusted: deposit step bookkeeping of the sim transport; porcupine; Go race detector (reports are true positives; absence covers only access pairs that occurred).")
 def main():
     import os
     extra = {}
